@@ -109,6 +109,8 @@ type c17World struct {
 	allowed  int // ticket let through by flush (-1: none)
 	passed   int // SendChunk calls completed
 	items    []c17Item
+	feCalls  int // ForEachItem calls = responses produced
+	stopped  bool
 	blockFE  bool
 	entered  chan struct{}
 	release  chan struct{}
@@ -362,10 +364,13 @@ func c17Run(input []string) []string {
 		panic("bad header")
 	}
 	atoi := func(s string) uint64 { n, _ := strconv.ParseUint(s, 10, 64); return n }
-	maxTasks := 128
-	if i := strings.IndexByte(header[0], ':'); i >= 0 {
-		maxTasks = int(atoi(header[0][i+1:]))
-		header = append([]string{header[0][:i]}, header[1:]...)
+	maxTasks, memBase := 128, 1
+	if f := strings.Split(header[0], ":"); len(f) > 1 {
+		maxTasks = int(atoi(f[1]))
+		if len(f) > 2 {
+			memBase = int(atoi(f[2]))
+		}
+		header = append([]string{f[0]}, header[1:]...)
 	}
 	small := maxTasks < 128
 	threads := int(atoi(header[0]))
@@ -390,7 +395,7 @@ func c17Run(input []string) []string {
 				if !held {
 					held, n = true, 0
 				}
-			case "f", "z":
+			case "f", "z", "S":
 				held, n = false, 0
 			case "r":
 				if held {
@@ -421,7 +426,10 @@ func c17Run(input []string) []string {
 				w.entered <- struct{}{}
 				<-w.release
 			}
-			p := &c17Payload{mem: 1, tag: tag}
+			w.mu.Lock()
+			w.feCalls++
+			w.mu.Unlock()
+			p := &c17Payload{mem: memBase, tag: tag}
 			for _, it := range w.items {
 				if it.key < uint64(start.(c17Loc)) {
 					continue
@@ -438,7 +446,11 @@ func c17Run(input []string) []string {
 		},
 	})
 	w.s.Start()
-	defer w.s.Stop()
+	defer func() {
+		if !w.stopped {
+			w.s.Stop()
+		}
+	}()
 	defer func() { // never leave sender workers blocked on the gate
 		w.mu.Lock()
 		w.held = false
@@ -448,8 +460,18 @@ func c17Run(input []string) []string {
 
 	pending := func() int64 { return w.s.VerifPendingResponsesSize() }
 	expectedPings := 0
+	// quiescent: the reader has processed everything submitted (sentinels seen), every response
+	// it produced has been handed to SendChunk and returned (counted: a payload may have
+	// TotalMemSize 0), and the pending size is back to 0
 	quiesce := func() {
-		c17Spin("quiesce", func() bool { return w.pingsSeen() == expectedPings && pending() == 0 })
+		c17Spin("quiesce", func() bool {
+			if w.pingsSeen() != expectedPings || pending() != 0 {
+				return false
+			}
+			w.mu.Lock()
+			defer w.mu.Unlock()
+			return w.passed == w.feCalls
+		})
 	}
 	// flush releases the blocked SendChunk calls one at a time, the most recent arrival first (so
 	// that a response routed to another sender worker than its predecessors overtakes them; with
@@ -484,18 +506,52 @@ func c17Run(input []string) []string {
 		}
 		quiesce()
 	}
-	// sentinel session
-	w.submit("0", 0, 0, 0, 1, 1, 1, true)
-	c17Spin("sentinel-open", func() bool {
+	if limit <= 0 {
+		// MaxPendingResponsesSize = 0: the reader never gets past its first wait.  Submit
+		// everything without waiting, give it time, observe that nothing at all was called.
+		vu.Stat("cfg_pending_limit_0")
+		sc := uint32(1)
+		if atoi(header[4]) == 0 {
+			sc = 0
+		}
+		w.submit("0", 0, 0, 0, 1, 1, sc, true)
+		var obs []string
+		for _, op := range ops {
+			if len(op) > 0 && op[0] == "r" && w.s.VerifPendingRequests() < 14 {
+				w.submit(op[1], uint32(atoi(op[2])), atoi(op[3]), atoi(op[4]), uint32(atoi(op[5])), atoi(op[6]), uint32(atoi(op[7])), false)
+				w.submit("0", 0, 1, 1, 1, 1, 0, true)
+			}
+		}
+		time.Sleep(3 * time.Millisecond)
 		w.mu.Lock()
-		defer w.mu.Unlock()
-		return w.sentResp == 1
-	})
+		sort.Ints(w.toomany)
+		for _, x := range w.toomany {
+			obs = append(obs, "X"+strconv.Itoa(x))
+		}
+		if w.feCalls != 0 || w.pings != 0 || len(w.incs) != 0 || len(w.misb) != 0 {
+			obs = append(obs, "CALLBACK-WITH-LIMIT-0")
+		}
+		w.mu.Unlock()
+		return obs
+	}
+	// sentinel session (opened by a request for zero chunks when MaxResponseChunks = 0)
+	if atoi(header[4]) == 0 {
+		vu.Stat("cfg_sentinel_zero_chunks")
+		w.submit("0", 0, 0, 0, 1, 1, 0, true)
+	} else {
+		w.submit("0", 0, 0, 0, 1, 1, 1, true)
+		c17Spin("sentinel-open", func() bool {
+			w.mu.Lock()
+			defer w.mu.Unlock()
+			return w.sentResp == 1
+		})
+	}
 	quiesce()
 
 	var obs []string
+	stoppedEarly := false
 	for _, op := range ops {
-		if len(op) == 0 {
+		if len(op) == 0 || stoppedEarly {
 			continue
 		}
 		vu.Stat("op_" + op[0])
@@ -578,6 +634,21 @@ func c17Run(input []string) []string {
 			w.release <- struct{}{}
 			quiesce()
 			c17Spin("unregister", func() bool { return w.s.VerifPendingUnregisters() == 0 })
+		case "S":
+			// Stop() while responses are in flight (blocked on the gate or queued): Stop drains the
+			// sender queues and waits for the workers, so the gate is opened after Stop has started
+			vu.Stat("stop_with_responses_in_flight")
+			stopped := make(chan struct{})
+			w.stopped = true
+			go func() { w.s.Stop(); close(stopped) }()
+			time.Sleep(200 * time.Microsecond)
+			w.mu.Lock()
+			w.held = false
+			w.cond.Broadcast()
+			w.mu.Unlock()
+			<-stopped
+			obs = append(obs, "STOPPED")
+			stoppedEarly = true
 		case "h":
 			w.mu.Lock()
 			w.held = true
@@ -588,7 +659,9 @@ func c17Run(input []string) []string {
 			panic("bad op " + op[0])
 		}
 	}
-	flush()
+	if !stoppedEarly {
+		flush()
+	}
 
 	w.mu.Lock()
 	defer w.mu.Unlock()
@@ -638,26 +711,56 @@ func c17Run(input []string) []string {
 type c17Sess struct{ start, stop uint64 }
 
 func c17GenOne(r *rand.Rand, emit func(...string)) {
+	// --- configuration sweep (every class is counted in the evidence) ---
 	threads := 1 + r.Intn(3)
-	limit := 1000
-	small := r.Intn(4) == 0
-	if small {
-		limit = 1 + r.Intn(12)
+	if r.Intn(12) == 0 {
+		threads = 8
 	}
+	vu.Stat(fmt.Sprintf("cfg_threads_%d", threads))
+	limit := 1000
+	small := false
+	switch x := r.Intn(40); {
+	case x < 10:
+		small = true
+		limit = 1 + r.Intn(12)
+		if r.Intn(4) == 0 {
+			limit = 1
+		}
+		vu.Stat("cfg_pending_limit_small")
+	case x < 11:
+		limit = 0 // the reader never gets past its first wait (the harness has a mode for it)
+	case x < 14:
+		limit = 1 << 40
+		vu.Stat("cfg_pending_limit_huge")
+	default:
+		vu.Stat("cfg_pending_limit_default")
+	}
+	_ = small
 	cfgNum, cfgSize, cfgChunks := 100, 1000, 4
 	if r.Intn(5) == 0 {
-		cfgNum = 1 + r.Intn(4)
+		cfgNum = r.Intn(5) // 0: every response still carries one item
+		vu.Stat(fmt.Sprintf("cfg_maxnum_%d", cfgNum))
 	}
 	if r.Intn(5) == 0 {
-		cfgSize = 1 + r.Intn(8)
+		cfgSize = r.Intn(9)
+		if cfgSize <= 1 {
+			vu.Stat(fmt.Sprintf("cfg_maxsize_%d", cfgSize))
+		}
 	}
 	if r.Intn(5) == 0 {
-		cfgChunks = 1 + r.Intn(3)
+		cfgChunks = r.Intn(4) // 0: every request asking for a chunk is refused
+		vu.Stat(fmt.Sprintf("cfg_maxchunks_%d", cfgChunks))
 	}
 	nitems := r.Intn(13)
 	thr := strconv.Itoa(threads)
-	if r.Intn(6) == 0 {
-		thr += ":" + strconv.Itoa(r.Intn(3)) // MaxSenderTasks 0, 1 or 2: Enqueue blocks
+	switch x := r.Intn(12); {
+	case x < 2 && limit > 0:
+		mt := r.Intn(3) // MaxSenderTasks 0, 1 or 2: Enqueue blocks
+		thr += ":" + strconv.Itoa(mt)
+		vu.Stat(fmt.Sprintf("cfg_maxsendertasks_%d", mt))
+	case x < 4:
+		thr += ":128:0" // payloads whose TotalMemSize() is 0 when they carry no item memory
+		vu.Stat("cfg_payload_membase_0")
 	}
 	in := []string{thr, strconv.Itoa(limit), strconv.Itoa(cfgNum), strconv.Itoa(cfgSize), strconv.Itoa(cfgChunks), strconv.Itoa(nitems)}
 	key := uint64(r.Intn(3))
@@ -672,8 +775,14 @@ func c17GenOne(r *rand.Rand, emit func(...string)) {
 	known := map[string]c17Sess{}
 	nops := 3 + r.Intn(22)
 	held, heldReqs := false, 0
+	if limit == 0 && nops > 5 {
+		nops = 5 // nothing is ever taken out of the request channel (16 entries)
+	}
 	for i := 0; i < nops; i++ {
 		x := r.Intn(100)
+		if limit == 0 {
+			x = x % 78 // requests only
+		}
 		switch {
 		case x < 78:
 			if held && heldReqs >= 6 {
@@ -692,7 +801,13 @@ func c17GenOne(r *rand.Rand, emit func(...string)) {
 				if r.Intn(6) == 0 {
 					ss.stop = maxKey + 5
 				}
+				if ss.start == ss.stop {
+					vu.Stat("session_start_eq_stop")
+				}
 				known[k] = ss
+			}
+			if len(known) > 3*npeers {
+				vu.Stat("more_than_3_sessions_some_peer")
 			}
 			num := r.Intn(6)
 			if r.Intn(4) == 0 {
@@ -711,7 +826,7 @@ func c17GenOne(r *rand.Rand, emit func(...string)) {
 			if held {
 				heldReqs++
 			}
-		case x < 80 && r.Intn(3) == 0:
+		case x < 80 && r.Intn(3) == 0 && cfgChunks > 0 && limit > 0:
 			// race: requests of the unregistering peer (and others) against its unregistration
 			pu := 1 + r.Intn(npeers)
 			n := r.Intn(4)
@@ -734,7 +849,12 @@ func c17GenOne(r *rand.Rand, emit func(...string)) {
 			}
 			held = false
 		case x < 86:
-			in = append(in, ";", "u", strconv.Itoa(1+r.Intn(npeers)))
+			pu := 1 + r.Intn(npeers)
+			if r.Intn(6) == 0 {
+				pu = 9 // a peer the seeder has never seen
+				vu.Stat("unregister_unknown_peer")
+			}
+			in = append(in, ";", "u", strconv.Itoa(pu))
 		case x < 94:
 			if !held {
 				in = append(in, ";", "h")
@@ -747,6 +867,44 @@ func c17GenOne(r *rand.Rand, emit func(...string)) {
 			in = append(in, ";", "f")
 			held = false
 		}
+	}
+	if nitems == 0 {
+		vu.Stat("empty_item_set")
+	}
+	{
+		sids := map[int]int{}
+		for k := range known {
+			var peer, sid int
+			fmt.Sscanf(k, "%d:%d", &peer, &sid)
+			sids[sid]++
+		}
+		for _, c := range sids {
+			if c > 1 {
+				vu.Stat("same_session_id_from_two_peers")
+				break
+			}
+		}
+	}
+	if limit > 0 && r.Intn(12) == 0 && len(known) > 0 {
+		// Stop() with responses in flight: hold, two more requests, stop
+		if held {
+			in = append(in, ";", "f")
+		}
+		in = append(in, ";", "h")
+		keys := make([]string, 0, len(known))
+		for k := range known {
+			keys = append(keys, k)
+		}
+		sort.Strings(keys)
+		for j := 0; j < 2; j++ {
+			k := keys[r.Intn(len(keys))]
+			ss := known[k]
+			var peer, sid int
+			fmt.Sscanf(k, "%d:%d", &peer, &sid)
+			in = append(in, ";", "r", strconv.Itoa(peer), strconv.Itoa(sid), strconv.FormatUint(ss.start, 10),
+				strconv.FormatUint(ss.stop, 10), "2", "500", strconv.Itoa(cfgChunks))
+		}
+		in = append(in, ";", "S")
 	}
 	emit(in...)
 }
